@@ -84,8 +84,13 @@ func (p *Prog) VerifyFunc(fi *FuncInfo, fc *FuncContract) (res *FuncResult) {
 	}()
 	x.h.ImplOf = func(v *Term, t types.Type) *Term { return x.implements(x.dyn(v), t) }
 	x.prepass(fi.Body)
-	// vacuity guard: a call hook that names no call of the body would be silently true
+	// vacuity guard: an assertion (or assumption) hooked to a call that is not in the body would be silently true:
+	// it is reported as a failed obligation under its own name
+	var orphanHooks []*AtClause
 	for _, at := range fc.Ats {
+		if at.Kind != "assert" && at.Kind != "assume" {
+			continue // a ghost update on a call that is gone simply does not happen: what is stated about the ghost then fails
+		}
 		n := 0
 		for name, k := range x.callOrd {
 			if atMatches(at.Callee, name) && k > n {
@@ -93,17 +98,27 @@ func (p *Prog) VerifyFunc(fi *FuncInfo, fc *FuncContract) (res *FuncResult) {
 			}
 		}
 		if n == 0 || at.Nth > n {
-			src := at.Callee
-			if at.Clause != nil {
-				src += ": " + at.Clause.Src
-			}
-			panic(specFail{fmt.Sprintf("call hook refers to a call that is not in the body (call %d of %s)", at.Nth, src)})
+			orphanHooks = append(orphanHooks, at)
 		}
 	}
 	s := &State{vars: map[types.Object]Value{}, mem: map[string]*Mem{}, ghost: map[string]Value{}, typed: map[*Term]bool{}}
 	s.allocTop = c.Const("top0", SInt)
 	s.Assume(c.Ge(s.allocTop, c.Int(0)))
 	s.Assume(c.Eq(x.dyn(c.Int(0)), c.Int(0)))
+	for _, at := range orphanHooks {
+		label := sanitize(at.Callee)
+		src := "call hook on " + at.Callee
+		var props []string
+		if at.Clause != nil {
+			if at.Clause.Label != "" {
+				label = at.Clause.Label
+			}
+			src += ": " + at.Clause.Src
+			props = at.Clause.Props
+		}
+		x.curPos = fi.Body.Lbrace + 1
+		x.oblige(s.Clone(), "assert", label, c.False(), fi.Body.Lbrace+1, &Clause{Label: label, Src: src + " (the call it is attached to is not in the body: call " + fmt.Sprint(at.Nth) + ")", Props: props})
+	}
 	// parameters
 	x.curPos = fi.Body.Lbrace + 1
 	paramVals := map[string]Value{}
